@@ -13,6 +13,7 @@ From Coq Require Import List.
 Import ListNotations.
 From GoSh Require Import Print.Heredocs.
 From GoSh Require Import Base.Bytes Base.Utf8 Expand.Expand Lex.Quote Lex.Reprint.
+From GoSh Require Lex.Reprint2.
 
 (** For every sequence of printer operations -- any nesting of levels and of multi-line expansions,
     any placement of newlines, expansions printed in the middle of a body -- that runs without fault
@@ -66,3 +67,15 @@ Theorem C05_trailing_backslash_refuted_F65 :
     forall F, scan_word F (print_parts w ++ [32; 62; 102]%N) [] <> Some (w, [32; 62; 102]%N).
 Proof. exact trailing_backslash_refuted. Qed.
 Print Assumptions C05_trailing_backslash_refuted_F65.
+
+(** The same with simple parameter expansions ($name, $1, $@ and the other special parameters,
+    outside and inside double quotes; rune-level model Lex/Reprint2.v, compared with the lexer and
+    with printer.Fprint on every run): for every text the model scanner accepts, followed by any
+    rest, the parts it returns, printed and followed by the same rest, are scanned to exactly the
+    same parts and rest.  A name is followed in the printed text by what followed it in the
+    source, so it is read back whole. *)
+Theorem C05_printed_word_with_parameters_is_scanned_back :
+  forall f s w rest, Reprint2.scan_word2 f s [] = Some (w, rest) ->
+    exists F, Reprint2.scan_word2 F (Reprint2.print_parts2 w ++ rest) [] = Some (w, rest).
+Proof. exact Reprint2.scan_print_scan2. Qed.
+Print Assumptions C05_printed_word_with_parameters_is_scanned_back.
